@@ -319,7 +319,12 @@ func TestC17Registry(t *testing.T) {
 	}
 	col := evid.New("C17", "collection-state-machine", "state machine over one collection: Add{Singleton,Scoped,Transient} of loosely generated registrations over a tiny identity pool (collisions, invalid option combinations, multi-output constructors colliding on a later output), Remove/RemoveKeyed, AddModules, Build (+resolve everything), and edits after a Build whose provider is kept; a reference registry is updated only by accepted operations; after every step Contains/ContainsKeyed/Count/ToSlice must equal it, a rejected Add changes nothing and is classifiable as already-registered when that is the cause, Build's verdict and the constructors that ran match the surviving registrations (a removed registration never runs), and a provider built earlier keeps answering exactly as when it was built; non-trivial = a rejected multi-output Add, a Remove followed by Build, or a post-Build edit")
 	defer col.Flush()
-	rapid.Check(t, func(rt *rapid.T) {
+	rapid.Check(t, propC17Registry(col, maxSteps))
+}
+
+// propC17Registry is the property of TestC17Registry; the native fuzz target of the same name decodes its input through it.
+func propC17Registry(col *evid.Collector, maxSteps int) func(rt *rapid.T) {
+	return func(rt *rapid.T) {
 		w, _ := kit.NewWorld(&kit.Config{})
 		coll := godi.NewCollection()
 		ref := newRefRegistry()
@@ -568,7 +573,7 @@ func TestC17Registry(t *testing.T) {
 		if f != nil {
 			rt.Fatalf("VIOLATION %s\nsteps: %s", f, canon)
 		}
-	})
+	}
 }
 
 func regByID(cfg *kit.Config, id int) string {
